@@ -227,7 +227,7 @@ package streams
 //@   ensures !isSafeWriter(writer) ==> !asSafeWriter(result.WriteCloserClosed).closed && asSafeWriter(result.WriteCloserClosed).WriteCloser == writer  :writer_open
 
 //@ func (sc *ReadWriteCloser) Close
-//@   property C19
+//@   property C19, C17
 //@   safe
 //@   requires !spec_sameref(sc.ReadCloserClosed, sc.WriteCloserClosed)
 //@   modifies G_closes(sc.ReadCloserClosed), G_isclosed(sc.ReadCloserClosed), G_closes(sc.WriteCloserClosed), G_isclosed(sc.WriteCloserClosed)
